@@ -410,6 +410,7 @@ pub fn run_check(prop: &dyn Prop, env: &CheckEnv) -> i32 {
     let replays = env.verif.join("replays");
     let _ = std::fs::create_dir_all(&replays);
     let mut viol_lines = Vec::new();
+    let mut not_reproduced = 0u32;
     for (class, list) in &by_class {
         if let Some(k) = known.iter().find(|k| k.status == "known" && k.property == prop.id() && &k.class == class) {
             println!("KNOWN-FINDING: property={} {} {} (met {} times)", prop.id(), class, k.what, list.len());
@@ -431,7 +432,8 @@ pub fn run_check(prop: &dyn Prop, env: &CheckEnv) -> i32 {
         std::fs::write(&path, serde_json::to_string_pretty(&small).unwrap()).expect("write replay");
         // fresh-process replay must reproduce
         let mut reproduced = false;
-        let tries = if class.contains("schedule") { 5 } else { 1 };
+        // a violation caused by real thread interleaving may need several attempts (DESIGN §2.6)
+        let tries = 6;
         for _ in 0..tries {
             let st = std::process::Command::new(&env.self_exe)
                 .arg("replay")
@@ -448,8 +450,8 @@ pub fn run_check(prop: &dyn Prop, env: &CheckEnv) -> i32 {
             }
         }
         if !reproduced {
-            println!("HARNESS-ERROR property={} violation class {} did not reproduce from {} in a fresh process", prop.id(), class, path.display());
-            exit = 2;
+            println!("NOT-REPRODUCED property={} violation class {} ({} occurrences) did not reproduce from {} in a fresh process", prop.id(), class, list.len(), path.display());
+            not_reproduced += 1;
             continue;
         }
         println!("violation class={} count={} first: {}", class, list.len(), v.detail.lines().next().unwrap_or(""));
@@ -459,6 +461,10 @@ pub fn run_check(prop: &dyn Prop, env: &CheckEnv) -> i32 {
         }
     }
 
+    if not_reproduced > 0 && exit == 0 {
+        println!("HARNESS-ERROR property={} {} violation class(es) seen during exploration did not reproduce on replay", prop.id(), not_reproduced);
+        exit = 2;
+    }
     // ---- generator reach self-test (thorough tier)
     for p in prop.required_probes(env.tier) {
         if stats.probes.get(p).copied().unwrap_or(0) == 0 {
